@@ -324,4 +324,189 @@ theorem subInto_ok (hF : F.Pure) (hcl : Env.CloneStable F) {a b : Raw K Unit} {l
 
 end sub
 
+/-! ### `a.extend(b)` with `b` a set that is moved in -/
+
+section extendFrom
+variable {K Q : Type} (F : Env K Unit Q)
+
+/-- outcome of the loop of `extend_from` on the pair (source register, destination register), in
+    terms of the keys `items` the consuming iterator still yields (in yield order) and the list `ld`
+    of the destination: no surplus item — the loop returns, the source is empty, the destination
+    holds the fold of single inserts; otherwise it unwinds with the overflow panic of the profile,
+    the source is empty all the same (the rest was dropped with the iterator) and the destination
+    keeps what went in before the first surplus item. -/
+def XOK (prof : Profile) (capS capD : Nat) (ld items : List (K × Unit))
+    (r : Res (Raw K Unit × St K Unit Q) Unit) : Prop :=
+  if overflowAt F capD ld items = none then
+    ∃ x, r = .ok () x ∧ Rep x.1 ([] : List (K × Unit)) ∧ x.1.cap = capS ∧
+      Ctx prof capD (foldInsert F ld items) x.2
+  else
+    ∃ x, r = .panic (fullPanic prof) x ∧ Rep x.1 ([] : List (K × Unit)) ∧ x.1.cap = capS ∧
+      Ctx prof capD (foldInsert F ld (items.take ((overflowAt F capD ld items).getD 0))) x.2
+
+theorem overflowAt_cons (cap : Nat) (lp : List (K × Unit)) (k : K) (v : Unit) (rest : List (K × Unit)) :
+    overflowAt F cap lp ((k, v) :: rest) =
+      if findKey F lp (.key k) = none ∧ cap ≤ lp.length then some 0
+      else (overflowAt F cap (insertL F lp k v) rest).map (· + 1) := rfl
+
+theorem XOK.cons {prof capS capD} {ld : List (K × Unit)} {k : K} {v : Unit} {rest : List (K × Unit)}
+    {r : Res (Raw K Unit × St K Unit Q) Unit}
+    (hno : ¬ (findKey F ld (.key k) = none ∧ capD ≤ ld.length))
+    (h : XOK F prof capS capD (insertL F ld k v) rest r) : XOK F prof capS capD ld ((k, v) :: rest) r := by
+  unfold XOK at h ⊢
+  rw [overflowAt_cons, if_neg hno]
+  cases hov : overflowAt F capD (insertL F ld k v) rest with
+  | none =>
+    rw [hov, if_pos rfl] at h
+    simpa [foldInsert_cons] using h
+  | some m =>
+    rw [hov, if_neg (by simp)] at h
+    simpa [foldInsert_cons] using h
+
+/-- **the loop of `a.extend(b)` computes the list-level fold**: under a pure `==`, in a benign
+    world, from a source holding `ls` and a destination holding `ld`. -/
+theorem extendFromLoop_ok (hF : F.Pure) {prof : Profile} {capS capD : Nat} :
+    ∀ (n : Nat) (ls ld : List (K × Unit)) (rs : Raw K Unit) (sd : St K Unit Q),
+      ls.length < n → Rep rs ls → rs.cap = capS → Ctx prof capD ld sd →
+      XOK F prof capS capD ld ls.reverse (extendFromLoop F n rs sd)
+  | 0, _, _, _, _, hn, _, _, _ => by omega
+  | n + 1, ls, ld, rs, sd, hn, hr, hcs, hc => by
+    have hnext : ∃ o s1, intoIterNextK F .keys ⟨rs, sd.w⟩ = .ok o s1 ∧ o = ls.getLast? ∧
+        Rep s1.r ls.dropLast ∧ s1.r.cap = rs.cap ∧
+        WRel sd.w s1.w ((o.map (Iters.discardTr F .keys)).getD []) := by
+      rcases outcome (Iters.intoIterNextK_sat F .keys (s := ⟨rs, sd.w⟩) hr) with
+        ⟨o, s1, h⟩ | ⟨c, s1, _, _, _, hi', _⟩
+      · exact ⟨o, s1, h⟩
+      · exact (no_inj (s := ⟨rs, sd.w⟩) hc.benign hi').elim
+    obtain ⟨o, s1, hm, ho, hrep1, hcap1, hw1⟩ := hnext
+    have hcap1' : s1.r.cap = capS := hcap1.trans hcs
+    have hcd1 : Ctx prof capD ld (⟨sd.r, s1.w⟩ : St K Unit Q) :=
+      hc.frame (s' := ⟨sd.r, s1.w⟩) rfl hw1
+    unfold extendFromLoop
+    simp only [hm]
+    rcases Iters.nil_or_snoc ls with rfl | ⟨L, p, rfl⟩
+    · simp only [List.getLast?_nil] at ho
+      subst ho
+      simp only [List.dropLast_nil] at hrep1
+      show XOK F prof capS capD ld [] _
+      unfold XOK
+      rw [if_pos (show overflowAt F capD ld [] = none from rfl)]
+      exact ⟨_, rfl, hrep1, hcap1', hc.frame (s' := { sd with w := s1.w }) rfl hw1⟩
+    · have hlast : (L ++ [p]).getLast? = some p := by simp
+      have hdl : (L ++ [p]).dropLast = L := by simp
+      rw [hlast] at ho
+      rw [hdl] at hrep1
+      subst ho
+      simp only
+      have hrev : (L ++ [p]).reverse = (p.1, p.2) :: L.reverse := by simp
+      rw [hrev]
+      simp only [List.length_append, List.length_cons, List.length_nil] at hn
+      rcases insert_cases F hF hcd1 p.1 () with ⟨hno, a, s2, hins, hc2⟩ | ⟨hfull, s2, hins, hc2⟩
+      · rw [hins]
+        exact XOK.cons F hno (extendFromLoop_ok hF n L _ s1.r s2 (by omega) hrep1 hcap1' hc2)
+      · rw [hins]
+        have hu : ((⟨s1.r, s2.w⟩ : St K Unit Q).setUnw true).w.unwinding = true := rfl
+        have hdrop : ∃ s3, dropAndRenew F ((⟨s1.r, s2.w⟩ : St K Unit Q).setUnw true) = .ok () s3 ∧
+            s3.r = Raw.new s1.r.cap ∧
+            WRel ((⟨s1.r, s2.w⟩ : St K Unit Q).setUnw true).w s3.w (dropTrace F L) := by
+          rcases outcome (Iters.dropAndRenew_unw F (s := (⟨s1.r, s2.w⟩ : St K Unit Q).setUnw true) hrep1 hu) with
+            ⟨_, s3, h⟩ | ⟨_, _, _, hf⟩
+          · exact ⟨s3, h⟩
+          · exact hf.elim
+        obtain ⟨s3, hdr, hr3, hw3⟩ := hdrop
+        simp only
+        rw [hdr]
+        unfold XOK
+        rw [overflowAt_cons, if_pos hfull, if_neg (by simp)]
+        simp only [Option.getD_some, List.take_zero]
+        have hw3' : WRel s2.w (s3.setUnw s2.w.unwinding).w _ :=
+          WRel.through_unw (s' := (⟨s1.r, s2.w⟩ : St K Unit Q)) hw3
+        refine ⟨_, rfl, ?_, ?_, hc2.frame (s' := { s2 with w := (s3.setUnw s2.w.unwinding).w }) rfl hw3'⟩
+        · show Rep s3.r []
+          rw [hr3]; exact Rep.new _
+        · show s3.r.cap = capS
+          rw [hr3]; exact hcap1'
+
+/-! #### what the destination gains, as a list -/
+
+/-- the elements of the source `ls` that the destination `ld` does not hold, in the order the
+    consuming iterator yields them (last slot first). -/
+def gained (ld ls : List (K × Unit)) : List (K × Unit) :=
+  ls.reverse.filter fun p => !SetAlg.memB F.keq p.1 (ld.map (·.1))
+
+/-- pairwise unequal keys arriving on top of `acc`: exactly those not yet present are appended. -/
+theorem firstKeys_of_nodup (keq : K → K → Bool) : ∀ (xs acc : List K), SetAlg.NodupB keq xs →
+    firstKeys keq acc xs = acc ++ xs.filter (fun k => !SetAlg.memB keq k acc)
+  | [], acc, _ => by simp [firstKeys]
+  | k :: xs, acc, hn => by
+    have hk : ∀ x, x ∈ xs → keq k x = false := (List.pairwise_cons.mp hn).1
+    have hxs : SetAlg.NodupB keq xs := (List.pairwise_cons.mp hn).2
+    show firstKeys keq (if SetAlg.memB keq k acc then acc else acc ++ [k]) xs = _
+    cases hm : SetAlg.memB keq k acc with
+    | true =>
+      simp only [if_true]
+      rw [firstKeys_of_nodup keq xs acc hxs, List.filter_cons, hm]
+      simp
+    | false =>
+      simp only [Bool.false_eq_true, if_false]
+      rw [firstKeys_of_nodup keq xs (acc ++ [k]) hxs, List.filter_cons, hm]
+      simp only [Bool.not_false, if_true, List.append_assoc, List.singleton_append]
+      congr 2
+      apply List.filter_congr
+      intro x hx
+      rw [SetAlg.memB_append]
+      have : SetAlg.memB keq x [k] = false := by
+        rw [SetAlg.memB_eq_false]
+        intro y hy
+        have : y = k := by simpa using hy
+        subst this; exact hk x hx
+      rw [this, Bool.or_false]
+
+theorem map_fst_unit_inj : ∀ {l l' : List (K × Unit)}, l.map (·.1) = l'.map (·.1) → l = l'
+  | [], [], _ => rfl
+  | [], _ :: _, h => by simp at h
+  | _ :: _, [], h => by simp at h
+  | (a, ()) :: l, (b, ()) :: l', h => by
+    simp only [List.map_cons, List.cons.injEq] at h
+    obtain ⟨rfl, h2⟩ := h
+    rw [map_fst_unit_inj h2]
+
+/-- **`a.extend(b)` on lists**, source keys pairwise unequal: the destination keeps its entries
+    (and their key objects) and gains exactly the source's elements it did not hold. -/
+theorem foldInsert_gain (hF : F.Lawful) (ld ls : List (K × Unit)) (hn : SetAlg.NodupKeys F.keq ls) :
+    foldInsert F ld ls.reverse = ld ++ gained F ld ls := by
+  apply map_fst_unit_inj
+  have hrev : SetAlg.NodupB F.keq (ls.reverse.map (·.1)) := by
+    unfold SetAlg.NodupKeys SetAlg.NodupB at *
+    rw [List.map_reverse, List.pairwise_reverse]
+    exact hn.imp (fun {a b} h => by rw [hF.symm]; exact h)
+  rw [foldInsert_keys, firstKeys_of_nodup F.keq _ _ hrev, List.map_append]
+  congr 1
+  unfold gained
+  rw [List.filter_map]
+  rfl
+
+/-- … and it fits exactly when there is room for what is gained. -/
+theorem overflowAt_none_of_gain (hF : F.Lawful) (cap : Nat) (ld ls : List (K × Unit))
+    (hnd : SetAlg.NodupKeys F.keq ld) (hroom : ld.length + (gained F ld ls).length ≤ cap) :
+    overflowAt F cap ld ls.reverse = none := by
+  refine overflowAt_none_of_cover hF cap ((ld ++ gained F ld ls).map (·.1)) (by simpa using hroom)
+    ls.reverse ld hnd ?_
+  intro x hx
+  rw [SetAlg.memB_eq_true]
+  rcases hx with hx | hx
+  · exact ⟨x, by rw [List.map_append]; exact List.mem_append_left _ hx, hF.refl x⟩
+  · cases hm : SetAlg.memB F.keq x (ld.map (·.1)) with
+    | true =>
+      obtain ⟨y, hy, hyx⟩ := SetAlg.memB_eq_true.mp hm
+      exact ⟨y, by rw [List.map_append]; exact List.mem_append_left _ hy, hyx⟩
+    | false =>
+      refine ⟨x, ?_, hF.refl x⟩
+      rw [List.map_append]
+      apply List.mem_append_right
+      obtain ⟨p, hp, rfl⟩ := List.mem_map.mp hx
+      exact List.mem_map_of_mem (List.mem_filter.mpr ⟨hp, by simp [hm]⟩)
+
+end extendFrom
+
 end Micromap.ListSys
